@@ -281,4 +281,17 @@ def parts(tier):
         rule="3-tier textgrids (interval, point, interval) from interval sets of <=2 on a 5-grid x windows; "
              "tier-wise comparison with the model, textgrid span, validate() for strict/truncated",
         bounds={"tiers": 3, "stride_over_second_and_third_tier": 3 if quick else 1}))
+
+    # history independence of the operations of this property (shared battery, see mc/props/live.py)
+    from mc.props import live as _live, tierops as _tierops
+    _hseeds = [("I", "t", 0.0, 4.0, D.labelled(x)) for x in D.interval_sets(D.unit_grid(5), 2)] + \
+              [("P", "t", 0.0, 4.0, D.labelled_points(x)) for x in D.point_sets(D.unit_grid(5), 2)]
+    _hothers = {"I": _tierops.OTHERS_I, "P": _tierops.OTHERS_P}
+    _hvals = (0.0, 0.5, 1.0, 2.0, 3.0, 4.5)
+    ps.append(InputPart(
+        "history-independence", lambda: _live.tier_history_cases(_hseeds, _hothers, _hvals),
+        lambda c: _live.check_tier_history(c, _hothers, _hvals),
+        rule="every (query/copy operation, in-place mutation) sequence on ONE live tier (all tiers of <=2 entries): afterwards the live "
+             "tier and a fresh tier with the same fields agree under ~20 observations as receiver and as argument",
+        bounds={}, chunk=16))
     return ps
